@@ -114,6 +114,12 @@ pub open spec fn filter_is_json(f: &Filter, j: &VxJson) -> bool {
 pub open spec fn filter_wf(f: &Filter) -> bool {
     f.payload_as_regex is Some <==> (f.ignore_case_payload && f.payload is Some && f.payload_regex is None)
 }
+// what else every front-end guarantees about the compiled payload matchers
+pub open spec fn built_ok(f: &Filter) -> bool {
+    &&& filter_wf(f)
+    &&& (f.payload_as_regex is Some ==> sre_ci_literal(&f.payload_as_regex->Some_0) == f.payload->Some_0@)                       // the case-insensitive literal is the payload text
+    &&& (f.ignore_case_payload && f.payload_regex is Some ==> exists|p: Seq<char>| fancy_pat(&f.payload_regex->Some_0) == #[trigger] ci_prefixed(p)) // (?i) + pattern
+}
 
 impl Filter {
 //@ extract src/filter/filter_impl.rs Filter::from_json
@@ -136,7 +142,7 @@ impl Filter {
 //@   spec
 //@|    ensures
 //@|        r is Ok ==> filter_is_json(&r->Ok_0, &json_of(json_str@)), // O:from_json.fields (every field is what the document says, with the documented defaults)
-//@|        r is Ok ==> filter_wf(&r->Ok_0), // O:from_json.wf (the filter is well-formed for Filter::matches)
+//@|        r is Ok ==> built_ok(&r->Ok_0), // O:from_json.wf (the filter is well-formed for Filter::matches)
 //@|        r is Ok ==> !json_level_bad(&json_of(json_str@), "logLevelMin"@) && !json_level_bad(&json_of(json_str@), "logLevelMax"@), // O:from_json.levels (a log level above 6 is rejected)
 //@ end
 }
@@ -307,7 +313,389 @@ impl Filter {
 //@|    requires filter.plain(FilterKind::Positive) && filter.apid is None && filter.ctid is None, // Filter::new(FilterKind::Positive)
 //@|    ensures
 //@|        r is Ok ==> filter_is_dlf(&r->Ok_0, attrs), // O:dlf.fields (every field is what the filter file says)
-//@|        r is Ok ==> filter_wf(&r->Ok_0), // O:dlf.wf (the filter is well-formed for Filter::matches: a literal payload text is matched ignoring case only if the file says so)
+//@|        r is Ok ==> filter_wf(&r->Ok_0) && (r->Ok_0.payload_as_regex is Some ==> sre_ci_literal(&r->Ok_0.payload_as_regex->Some_0) == r->Ok_0.payload->Some_0@), // O:dlf.wf (the filter is well-formed for Filter::matches: a literal payload text is matched ignoring case only if the file says so)
 //@ end
+}
+
+// ---- JSON serialisation (Serialize for Filter, used by Filter::to_json) and the round trip ----
+// serde's Serializer / SerializeStruct (R12): serialize_struct opens an object, serialize_field(key, value) adds the member `key` with
+// the JSON image of the value, end() closes it. ASSUMED: that is what serde_json does for these value types (u8, bool, &str / String as
+// a JSON string, DltChar4 through its Display text, Vec<u32> as an array of numbers).
+// the member names, numbered (R12: `serialize_field("type", ..)` -> `serialize_field(K_TYPE, ..)`, one substitution per name), so that
+// 'two different members' is integer disequality; json_has() below ties each number to its name on the from_json side
+pub const K_TYPE: u8 = 0;
+pub const K_ENABLED: u8 = 1;
+pub const K_AT_LOAD_TIME: u8 = 2;
+pub const K_NOT: u8 = 3;
+pub const K_ECU: u8 = 4;
+pub const K_ECU_IS_REGEX: u8 = 5;
+pub const K_APID: u8 = 6;
+pub const K_APID_IS_REGEX: u8 = 7;
+pub const K_CTID: u8 = 8;
+pub const K_CTID_IS_REGEX: u8 = 9;
+pub const K_PAYLOAD_REGEX: u8 = 10;
+pub const K_PAYLOAD: u8 = 11;
+pub const K_IGNORE_CASE_PAYLOAD: u8 = 12;
+pub const K_LOG_LEVEL_MIN: u8 = 13;
+pub const K_LOG_LEVEL_MAX: u8 = 14;
+pub const K_LIFECYCLES: u8 = 15;
+pub const K_VERB_MSTP_MTIN: u8 = 16;
+pub const K_MSTP: u8 = 17;
+pub enum JV { U(u64), B(bool), S(Seq<char>), A(Seq<u32>) }
+pub uninterp spec fn char4_text(c: DltChar4) -> Seq<char>;   // Display of a DltChar4
+pub trait VJsonVal {
+    spec fn jv(&self) -> JV;
+}
+impl VJsonVal for u8 { open spec fn jv(&self) -> JV { JV::U(*self as u64) } }
+impl VJsonVal for bool { open spec fn jv(&self) -> JV { JV::B(*self) } }
+impl VJsonVal for DltChar4 { open spec fn jv(&self) -> JV { JV::S(char4_text(*self)) } }
+impl VJsonVal for str { open spec fn jv(&self) -> JV { JV::S(self@) } }
+impl VJsonVal for String { open spec fn jv(&self) -> JV { JV::S(self@) } }
+impl VJsonVal for Vec<u32> { open spec fn jv(&self) -> JV { JV::A(self@) } }
+impl<T: VJsonVal + ?Sized> VJsonVal for &T { open spec fn jv(&self) -> JV { (**self).jv() } }
+#[verifier::external_body]
+pub struct VxSerErr { _p: u8 }
+#[verifier::external_body]
+pub struct VxSerOk { _p: u8 }
+impl VxSerOk { pub uninterp spec fn doc(&self) -> Doc; }
+// a document under construction as a function member number -> value (cheaper for the solver than a chain of Map inserts)
+pub type Doc = spec_fn(u8) -> Option<JV>;
+#[verifier::external_body]
+pub struct VxSerState { _p: u8 }
+impl VxSerState {
+    pub uninterp spec fn fget(&self, k: u8) -> Option<JV>;
+    #[verifier::external_body]
+    pub fn serialize_field<T: VJsonVal + ?Sized>(&mut self, key: u8, value: &T) -> (r: Result<(), VxSerErr>)
+        ensures r is Ok ==> forall|k: u8| #[trigger] final(self).fget(k) == (if k == key { Some(value.jv()) } else { old(self).fget(k) }),
+    { unimplemented!() }
+    #[verifier::external_body]
+    pub fn end(self) -> (r: Result<VxSerOk, VxSerErr>)
+        ensures r is Ok ==> forall|k: u8| #[trigger] (r->Ok_0.doc())(k) == self.fget(k),
+    { unimplemented!() }
+}
+#[verifier::external_body]
+pub struct VxSerializer { _p: u8 }
+impl VxSerializer {
+    #[verifier::external_body]
+    pub fn serialize_struct(self, name: &str, n: usize) -> (r: Result<VxSerState, VxSerErr>)
+        ensures r is Ok ==> forall|k: u8| #[trigger] r->Ok_0.fget(k) is None,
+    { unimplemented!() }
+}
+impl VxBytesRegex {
+    #[verifier::external_body]
+    pub fn as_str(&self) -> (r: &str) ensures r@ == bre_pat(self) { unimplemented!() }
+}
+impl VxFancyRegex {
+    #[verifier::external_body]
+    pub fn as_str(&self) -> (r: &str) ensures r@ == fancy_pat(self) { unimplemented!() }
+}
+// `s.as_str().replacen("(?i)", "", 1)`: the first "(?i)" removed; for a pattern that was built as "(?i)" + p this gives p back
+#[verifier::external_body]
+pub fn vx_strip_ci(s: &str) -> (r: String) ensures forall|p: Seq<char>| s@ == #[trigger] ci_prefixed(p) ==> r@ == p { unimplemented!() }
+#[verifier::external_body]
+pub fn vx_kind_u8(k: FilterKind) -> (r: u8)
+    ensures r == (match k { FilterKind::Positive => 0u8, FilterKind::Negative => 1u8, FilterKind::Marker => 2u8, FilterKind::Event => 3u8 }),
+{ unimplemented!() }
+// a JSON document (as from_json sees it) that consists of exactly these members
+pub open spec fn member_is(j: &VxJson, name: Seq<char>, d: Doc, k: u8) -> bool {
+    &&& j.u(name) == (if d(k) is Some && d(k)->Some_0 is U { Some(d(k)->Some_0->U_0) } else { None::<u64> })
+    &&& j.b(name) == (if d(k) is Some && d(k)->Some_0 is B { Some(d(k)->Some_0->B_0) } else { None::<bool> })
+    &&& j.s(name) == (if d(k) is Some && d(k)->Some_0 is S { Some(d(k)->Some_0->S_0) } else { None::<Seq<char>> })
+    &&& j.u32s(name) == (if d(k) is Some && d(k)->Some_0 is A { Some(d(k)->Some_0->A_0) } else { None::<Seq<u32>> })
+}
+pub open spec fn json_has(j: &VxJson, d: Doc) -> bool {
+    &&& member_is(j, "type"@, d, K_TYPE)
+    &&& member_is(j, "enabled"@, d, K_ENABLED)
+    &&& member_is(j, "atLoadTime"@, d, K_AT_LOAD_TIME)
+    &&& member_is(j, "not"@, d, K_NOT)
+    &&& member_is(j, "ecu"@, d, K_ECU)
+    &&& member_is(j, "ecuIsRegex"@, d, K_ECU_IS_REGEX)
+    &&& member_is(j, "apid"@, d, K_APID)
+    &&& member_is(j, "apidIsRegex"@, d, K_APID_IS_REGEX)
+    &&& member_is(j, "ctid"@, d, K_CTID)
+    &&& member_is(j, "ctidIsRegex"@, d, K_CTID_IS_REGEX)
+    &&& member_is(j, "payloadRegex"@, d, K_PAYLOAD_REGEX)
+    &&& member_is(j, "payload"@, d, K_PAYLOAD)
+    &&& member_is(j, "ignoreCasePayload"@, d, K_IGNORE_CASE_PAYLOAD)
+    &&& member_is(j, "logLevelMin"@, d, K_LOG_LEVEL_MIN)
+    &&& member_is(j, "logLevelMax"@, d, K_LOG_LEVEL_MAX)
+    &&& member_is(j, "lifecycles"@, d, K_LIFECYCLES)
+    &&& member_is(j, "verb_mstp_mtin"@, d, K_VERB_MSTP_MTIN)
+    &&& member_is(j, "mstp"@, d, K_MSTP)
+}
+// Serialize for Filter in four statement ranges (the whole function at once made the solver run out of resources: ~20 conditional
+// writes); each range writes its own members and leaves the others alone, theorem_to_json composes them.
+pub open spec fn others_same(st0: &VxSerState, st1: &VxSerState, mine: Set<u8>) -> bool { forall|k: u8| !mine.contains(k) ==> #[trigger] st1.fget(k) == st0.fget(k) }
+pub open spec fn st_has(st: &VxSerState, k: u8, v: JV) -> bool { st.fget(k) == Some(v) }
+pub open spec fn keys_head() -> Set<u8> { set![K_TYPE, K_ENABLED, K_AT_LOAD_TIME, K_NOT] }
+pub open spec fn keys_ids() -> Set<u8> { set![K_ECU, K_ECU_IS_REGEX, K_APID, K_APID_IS_REGEX, K_CTID, K_CTID_IS_REGEX] }
+pub open spec fn keys_payload() -> Set<u8> { set![K_PAYLOAD_REGEX, K_PAYLOAD, K_IGNORE_CASE_PAYLOAD] }
+pub open spec fn st_id(st: &VxSerState, c: Option<Char4OrRegex>, key: u8, flag: u8, st0: &VxSerState) -> bool {
+    match c {
+        None => st.fget(key) == st0.fget(key) && st.fget(flag) == st0.fget(flag),
+        Some(Char4OrRegex::DltChar4(x)) => st_has(st, key, JV::S(char4_text(x))) && st_has(st, flag, JV::B(false)),
+        Some(Char4OrRegex::Regex(r)) => st_has(st, key, JV::S(bre_pat(&r))) && st_has(st, flag, JV::B(true)),
+    }
+}
+pub open spec fn head_post(f: &Filter, s0: &VxSerState, s1: &VxSerState) -> bool {
+    &&& others_same(s0, s1, keys_head())
+    &&& st_has(s1, K_TYPE, JV::U(match f.kind { FilterKind::Positive => 0u64, FilterKind::Negative => 1u64, FilterKind::Marker => 2u64, FilterKind::Event => 3u64 }))
+    &&& (if f.enabled { s1.fget(K_ENABLED) == s0.fget(K_ENABLED) } else { st_has(s1, K_ENABLED, JV::B(false)) })
+    &&& (if f.negate_match { st_has(s1, K_NOT, JV::B(true)) } else { s1.fget(K_NOT) == s0.fget(K_NOT) })
+    &&& (if f.at_load_time { st_has(s1, K_AT_LOAD_TIME, JV::B(true)) } else { s1.fget(K_AT_LOAD_TIME) == s0.fget(K_AT_LOAD_TIME) })
+}
+pub open spec fn ids_post(f: &Filter, s0: &VxSerState, s1: &VxSerState) -> bool {
+    others_same(s0, s1, keys_ids()) && st_id(s1, f.ecu, K_ECU, K_ECU_IS_REGEX, s0) && st_id(s1, f.apid, K_APID, K_APID_IS_REGEX, s0) && st_id(s1, f.ctid, K_CTID, K_CTID_IS_REGEX, s0)
+}
+pub open spec fn payload_post(f: &Filter, s0: &VxSerState, s1: &VxSerState) -> bool {
+    &&& others_same(s0, s1, keys_payload())
+    &&& (if f.ignore_case_payload { st_has(s1, K_IGNORE_CASE_PAYLOAD, JV::B(true)) } else { s1.fget(K_IGNORE_CASE_PAYLOAD) == s0.fget(K_IGNORE_CASE_PAYLOAD) })
+    &&& (if f.payload_regex is Some {
+            s1.fget(K_PAYLOAD) == s0.fget(K_PAYLOAD) && s1.fget(K_PAYLOAD_REGEX) is Some && s1.fget(K_PAYLOAD_REGEX)->Some_0 is S
+            && (if f.ignore_case_payload { forall|p: Seq<char>| fancy_pat(&f.payload_regex->Some_0) == #[trigger] ci_prefixed(p) ==> s1.fget(K_PAYLOAD_REGEX)->Some_0->S_0 == p }
+                else { s1.fget(K_PAYLOAD_REGEX)->Some_0->S_0 == fancy_pat(&f.payload_regex->Some_0) })
+        } else {
+            s1.fget(K_PAYLOAD_REGEX) == s0.fget(K_PAYLOAD_REGEX)
+            && (if f.payload is Some { st_has(s1, K_PAYLOAD, JV::S(f.payload->Some_0@)) } else { s1.fget(K_PAYLOAD) == s0.fget(K_PAYLOAD) })
+        })
+}
+pub open spec fn rest_post(f: &Filter, s0: &VxSerState, d: Doc) -> bool {
+    &&& forall|k: u8| k != K_LOG_LEVEL_MIN && k != K_LOG_LEVEL_MAX && k != K_LIFECYCLES && k != K_VERB_MSTP_MTIN && k != K_MSTP ==> #[trigger] d(k) == s0.fget(k)
+    &&& (match f.loglevel_min { Some(l) => has(d, K_LOG_LEVEL_MIN, JV::U(l as u64)), None => d(K_LOG_LEVEL_MIN) == s0.fget(K_LOG_LEVEL_MIN) })
+    &&& (match f.loglevel_max { Some(l) => has(d, K_LOG_LEVEL_MAX, JV::U(l as u64)), None => d(K_LOG_LEVEL_MAX) == s0.fget(K_LOG_LEVEL_MAX) })
+    &&& (match f.lifecycles { Some(l) => has(d, K_LIFECYCLES, JV::A(l@)), None => d(K_LIFECYCLES) == s0.fget(K_LIFECYCLES) })
+}
+pub open spec fn type_post(f: &Filter, s0: &VxSerState, d: Doc) -> bool {
+    match f.verb_mstp_mtin {
+        None => d(K_VERB_MSTP_MTIN) == s0.fget(K_VERB_MSTP_MTIN) && d(K_MSTP) == s0.fget(K_MSTP),
+        Some(vm) => if vm.1 == (0x07u8 << 1) { d(K_VERB_MSTP_MTIN) == s0.fget(K_VERB_MSTP_MTIN) && has(d, K_MSTP, JV::U(((vm.0 >> 1) & 0x07u8) as u64)) }
+                    else { has(d, K_VERB_MSTP_MTIN, JV::U(vm.0 as u64)) },
+    }
+}
+//@ extract src/filter/filter_impl.rs region `let kind: u8` .. `if self.negate_match {` in <Serialize for Filter>::serialize
+//@   sig pub fn ser_head(vx_self: &Filter, state: &mut VxSerState) -> (r: Result<(), VxSerErr>)
+//@   tail `Ok(())`
+//@   sub R12 `self` => `vx_self` *
+//@   sub R12 `serialize_field("type",` => `serialize_field(K_TYPE,` ?
+//@   sub R12 `serialize_field("enabled",` => `serialize_field(K_ENABLED,` ?
+//@   sub R12 `serialize_field("atLoadTime",` => `serialize_field(K_AT_LOAD_TIME,` ?
+//@   sub R12 `serialize_field("not",` => `serialize_field(K_NOT,` ?
+//@   sub R12 `serialize_field("ecu",` => `serialize_field(K_ECU,` ?
+//@   sub R12 `serialize_field("ecuIsRegex",` => `serialize_field(K_ECU_IS_REGEX,` ?
+//@   sub R12 `serialize_field("apid",` => `serialize_field(K_APID,` ?
+//@   sub R12 `serialize_field("apidIsRegex",` => `serialize_field(K_APID_IS_REGEX,` ?
+//@   sub R12 `serialize_field("ctid",` => `serialize_field(K_CTID,` ?
+//@   sub R12 `serialize_field("ctidIsRegex",` => `serialize_field(K_CTID_IS_REGEX,` ?
+//@   sub R12 `serialize_field("payloadRegex",` => `serialize_field(K_PAYLOAD_REGEX,` ?
+//@   sub R12 `serialize_field("payload",` => `serialize_field(K_PAYLOAD,` ?
+//@   sub R12 `serialize_field("ignoreCasePayload",` => `serialize_field(K_IGNORE_CASE_PAYLOAD,` ?
+//@   sub R12 `serialize_field("logLevelMin",` => `serialize_field(K_LOG_LEVEL_MIN,` ?
+//@   sub R12 `serialize_field("logLevelMax",` => `serialize_field(K_LOG_LEVEL_MAX,` ?
+//@   sub R12 `serialize_field("lifecycles",` => `serialize_field(K_LIFECYCLES,` ?
+//@   sub R12 `serialize_field("verb_mstp_mtin",` => `serialize_field(K_VERB_MSTP_MTIN,` ?
+//@   sub R12 `serialize_field("mstp",` => `serialize_field(K_MSTP,` ?
+//@   sub R11 `vx_self.kind as u8` => `vx_kind_u8(vx_self.kind)` ?
+//@   sub R11 `s.as_str().replacen("(?i)", "", 1)` => `vx_strip_ci(s.as_str())` ?
+//@   spec
+//@|    ensures r is Ok ==> head_post(vx_self, old(state), final(state)), // O:to_json.head
+//@ end
+//@ extract src/filter/filter_impl.rs region `if let Some(s) = &self.ecu {` .. `if let Some(s) = &self.ctid {` in <Serialize for Filter>::serialize
+//@   sig pub fn ser_ids(vx_self: &Filter, state: &mut VxSerState) -> (r: Result<(), VxSerErr>)
+//@   tail `Ok(())`
+//@   sub R12 `self` => `vx_self` *
+//@   sub R12 `serialize_field("type",` => `serialize_field(K_TYPE,` ?
+//@   sub R12 `serialize_field("enabled",` => `serialize_field(K_ENABLED,` ?
+//@   sub R12 `serialize_field("atLoadTime",` => `serialize_field(K_AT_LOAD_TIME,` ?
+//@   sub R12 `serialize_field("not",` => `serialize_field(K_NOT,` ?
+//@   sub R12 `serialize_field("ecu",` => `serialize_field(K_ECU,` ?
+//@   sub R12 `serialize_field("ecuIsRegex",` => `serialize_field(K_ECU_IS_REGEX,` ?
+//@   sub R12 `serialize_field("apid",` => `serialize_field(K_APID,` ?
+//@   sub R12 `serialize_field("apidIsRegex",` => `serialize_field(K_APID_IS_REGEX,` ?
+//@   sub R12 `serialize_field("ctid",` => `serialize_field(K_CTID,` ?
+//@   sub R12 `serialize_field("ctidIsRegex",` => `serialize_field(K_CTID_IS_REGEX,` ?
+//@   sub R12 `serialize_field("payloadRegex",` => `serialize_field(K_PAYLOAD_REGEX,` ?
+//@   sub R12 `serialize_field("payload",` => `serialize_field(K_PAYLOAD,` ?
+//@   sub R12 `serialize_field("ignoreCasePayload",` => `serialize_field(K_IGNORE_CASE_PAYLOAD,` ?
+//@   sub R12 `serialize_field("logLevelMin",` => `serialize_field(K_LOG_LEVEL_MIN,` ?
+//@   sub R12 `serialize_field("logLevelMax",` => `serialize_field(K_LOG_LEVEL_MAX,` ?
+//@   sub R12 `serialize_field("lifecycles",` => `serialize_field(K_LIFECYCLES,` ?
+//@   sub R12 `serialize_field("verb_mstp_mtin",` => `serialize_field(K_VERB_MSTP_MTIN,` ?
+//@   sub R12 `serialize_field("mstp",` => `serialize_field(K_MSTP,` ?
+//@   sub R11 `vx_self.kind as u8` => `vx_kind_u8(vx_self.kind)` ?
+//@   sub R11 `s.as_str().replacen("(?i)", "", 1)` => `vx_strip_ci(s.as_str())` ?
+//@   spec
+//@|    ensures r is Ok ==> ids_post(vx_self, old(state), final(state)), // O:to_json.ids (an id criterion is written as its text plus the literal/regex flag)
+//@ end
+//@ extract src/filter/filter_impl.rs region `if let Some(s) = &self.payload_regex {` .. `if self.ignore_case_payload { state.serialize_field("ignoreCasePayload"` in <Serialize for Filter>::serialize
+//@   sig pub fn ser_payload(vx_self: &Filter, state: &mut VxSerState) -> (r: Result<(), VxSerErr>)
+//@   tail `Ok(())`
+//@   sub R12 `self` => `vx_self` *
+//@   sub R12 `serialize_field("type",` => `serialize_field(K_TYPE,` ?
+//@   sub R12 `serialize_field("enabled",` => `serialize_field(K_ENABLED,` ?
+//@   sub R12 `serialize_field("atLoadTime",` => `serialize_field(K_AT_LOAD_TIME,` ?
+//@   sub R12 `serialize_field("not",` => `serialize_field(K_NOT,` ?
+//@   sub R12 `serialize_field("ecu",` => `serialize_field(K_ECU,` ?
+//@   sub R12 `serialize_field("ecuIsRegex",` => `serialize_field(K_ECU_IS_REGEX,` ?
+//@   sub R12 `serialize_field("apid",` => `serialize_field(K_APID,` ?
+//@   sub R12 `serialize_field("apidIsRegex",` => `serialize_field(K_APID_IS_REGEX,` ?
+//@   sub R12 `serialize_field("ctid",` => `serialize_field(K_CTID,` ?
+//@   sub R12 `serialize_field("ctidIsRegex",` => `serialize_field(K_CTID_IS_REGEX,` ?
+//@   sub R12 `serialize_field("payloadRegex",` => `serialize_field(K_PAYLOAD_REGEX,` ?
+//@   sub R12 `serialize_field("payload",` => `serialize_field(K_PAYLOAD,` ?
+//@   sub R12 `serialize_field("ignoreCasePayload",` => `serialize_field(K_IGNORE_CASE_PAYLOAD,` ?
+//@   sub R12 `serialize_field("logLevelMin",` => `serialize_field(K_LOG_LEVEL_MIN,` ?
+//@   sub R12 `serialize_field("logLevelMax",` => `serialize_field(K_LOG_LEVEL_MAX,` ?
+//@   sub R12 `serialize_field("lifecycles",` => `serialize_field(K_LIFECYCLES,` ?
+//@   sub R12 `serialize_field("verb_mstp_mtin",` => `serialize_field(K_VERB_MSTP_MTIN,` ?
+//@   sub R12 `serialize_field("mstp",` => `serialize_field(K_MSTP,` ?
+//@   sub R11 `vx_self.kind as u8` => `vx_kind_u8(vx_self.kind)` ?
+//@   sub R11 `s.as_str().replacen("(?i)", "", 1)` => `vx_strip_ci(s.as_str())` ?
+//@   spec
+//@|    ensures r is Ok ==> payload_post(vx_self, old(state), final(state)), // O:to_json.payload
+//@ end
+//@ extract src/filter/filter_impl.rs region `if let Some(lvl) = &self.loglevel_min {` .. `$end` in <Serialize for Filter>::serialize
+//@   sig pub fn ser_rest(vx_self: &Filter, mut state: VxSerState) -> (r: Result<VxSerOk, VxSerErr>)
+//@   sub R12 `self` => `vx_self` *
+//@   sub R12 `serialize_field("type",` => `serialize_field(K_TYPE,` ?
+//@   sub R12 `serialize_field("enabled",` => `serialize_field(K_ENABLED,` ?
+//@   sub R12 `serialize_field("atLoadTime",` => `serialize_field(K_AT_LOAD_TIME,` ?
+//@   sub R12 `serialize_field("not",` => `serialize_field(K_NOT,` ?
+//@   sub R12 `serialize_field("ecu",` => `serialize_field(K_ECU,` ?
+//@   sub R12 `serialize_field("ecuIsRegex",` => `serialize_field(K_ECU_IS_REGEX,` ?
+//@   sub R12 `serialize_field("apid",` => `serialize_field(K_APID,` ?
+//@   sub R12 `serialize_field("apidIsRegex",` => `serialize_field(K_APID_IS_REGEX,` ?
+//@   sub R12 `serialize_field("ctid",` => `serialize_field(K_CTID,` ?
+//@   sub R12 `serialize_field("ctidIsRegex",` => `serialize_field(K_CTID_IS_REGEX,` ?
+//@   sub R12 `serialize_field("payloadRegex",` => `serialize_field(K_PAYLOAD_REGEX,` ?
+//@   sub R12 `serialize_field("payload",` => `serialize_field(K_PAYLOAD,` ?
+//@   sub R12 `serialize_field("ignoreCasePayload",` => `serialize_field(K_IGNORE_CASE_PAYLOAD,` ?
+//@   sub R12 `serialize_field("logLevelMin",` => `serialize_field(K_LOG_LEVEL_MIN,` ?
+//@   sub R12 `serialize_field("logLevelMax",` => `serialize_field(K_LOG_LEVEL_MAX,` ?
+//@   sub R12 `serialize_field("lifecycles",` => `serialize_field(K_LIFECYCLES,` ?
+//@   sub R12 `serialize_field("verb_mstp_mtin",` => `serialize_field(K_VERB_MSTP_MTIN,` ?
+//@   sub R12 `serialize_field("mstp",` => `serialize_field(K_MSTP,` ?
+//@   sub R11 `vx_self.kind as u8` => `vx_kind_u8(vx_self.kind)` ?
+//@   sub R11 `s.as_str().replacen("(?i)", "", 1)` => `vx_strip_ci(s.as_str())` ?
+//@   spec
+//@|    ensures
+//@|        r is Ok ==> rest_post(vx_self, &state, r->Ok_0.doc()), // O:to_json.rest
+//@|        r is Ok ==> type_post(vx_self, &state, r->Ok_0.doc()), // O:to_json.type (the message-type criterion is written too: as "mstp" when only the message type is filtered, else as "verb_mstp_mtin")
+//@ end
+// the pieces are all there is: the function is `serialize_struct`, the four ranges, `end()`
+//@ count src/filter/filter_impl.rs <Serialize for Filter>::serialize `serialize_field(` == 25
+// ---------- oracle: a JSON document from which from_json rebuilds the criteria of f ----------
+pub open spec fn has(d: Doc, k: u8, v: JV) -> bool { d(k) == Some(v) }
+pub open spec fn doc_id(d: Doc, c: Option<Char4OrRegex>, key: u8, flag: u8) -> bool {
+    match c {
+        None => d(key) is None,
+        Some(Char4OrRegex::DltChar4(x)) => has(d, key, JV::S(char4_text(x))) && has(d, flag, JV::B(false)),
+        Some(Char4OrRegex::Regex(r)) => has(d, key, JV::S(bre_pat(&r))) && has(d, flag, JV::B(true)),
+    }
+}
+pub open spec fn doc_describes(f: &Filter, d: Doc) -> bool {
+    &&& has(d, K_TYPE, JV::U(match f.kind { FilterKind::Positive => 0u64, FilterKind::Negative => 1u64, FilterKind::Marker => 2u64, FilterKind::Event => 3u64 }))
+    &&& (if f.enabled { d(K_ENABLED) is None } else { has(d, K_ENABLED, JV::B(false)) })
+    &&& (if f.negate_match { has(d, K_NOT, JV::B(true)) } else { d(K_NOT) is None })
+    &&& (if f.at_load_time { has(d, K_AT_LOAD_TIME, JV::B(true)) } else { d(K_AT_LOAD_TIME) is None })
+    &&& doc_id(d, f.ecu, K_ECU, K_ECU_IS_REGEX) && doc_id(d, f.apid, K_APID, K_APID_IS_REGEX) && doc_id(d, f.ctid, K_CTID, K_CTID_IS_REGEX)
+    &&& (if f.ignore_case_payload { has(d, K_IGNORE_CASE_PAYLOAD, JV::B(true)) } else { d(K_IGNORE_CASE_PAYLOAD) is None })
+    &&& (if f.payload_regex is Some {
+            d(K_PAYLOAD_REGEX) is Some && d(K_PAYLOAD_REGEX)->Some_0 is S
+            && (if f.ignore_case_payload { forall|p: Seq<char>| fancy_pat(&f.payload_regex->Some_0) == #[trigger] ci_prefixed(p) ==> d(K_PAYLOAD_REGEX)->Some_0->S_0 == p }
+                else { d(K_PAYLOAD_REGEX)->Some_0->S_0 == fancy_pat(&f.payload_regex->Some_0) })
+        } else {
+            d(K_PAYLOAD_REGEX) is None && (if f.payload is Some { has(d, K_PAYLOAD, JV::S(f.payload->Some_0@)) } else { d(K_PAYLOAD) is None })
+        })
+    &&& (match f.loglevel_min { Some(l) => has(d, K_LOG_LEVEL_MIN, JV::U(l as u64)), None => d(K_LOG_LEVEL_MIN) is None })
+    &&& (match f.loglevel_max { Some(l) => has(d, K_LOG_LEVEL_MAX, JV::U(l as u64)), None => d(K_LOG_LEVEL_MAX) is None })
+    &&& (match f.lifecycles { Some(l) => has(d, K_LIFECYCLES, JV::A(l@)), None => d(K_LIFECYCLES) is None })
+}
+// the type criterion: written as "mstp" (mask = message type only) or as "verb_mstp_mtin", absent without one
+pub open spec fn doc_type_crit(f: &Filter, d: Doc) -> bool {
+    match f.verb_mstp_mtin {
+        None => d(K_VERB_MSTP_MTIN) is None && d(K_MSTP) is None,
+        Some(vm) => if vm.1 == (0x07u8 << 1) { d(K_VERB_MSTP_MTIN) is None && has(d, K_MSTP, JV::U(((vm.0 >> 1) & 0x07u8) as u64)) }
+                    else { has(d, K_VERB_MSTP_MTIN, JV::U(vm.0 as u64)) },
+    }
+}
+
+// Serialize for Filter = serialize_struct (nothing written yet), the four ranges in this order, end(): the document describes the filter
+pub proof fn theorem_to_json(f: &Filter, s0: &VxSerState, s1: &VxSerState, s2: &VxSerState, s3: &VxSerState, d: Doc)
+    requires
+        forall|k: u8| #[trigger] s0.fget(k) is None,
+        head_post(f, s0, s1), ids_post(f, s1, s2), payload_post(f, s2, s3), rest_post(f, s3, d), type_post(f, s3, d),
+    ensures doc_describes(f, d), doc_type_crit(f, d), // O:to_json.describes (the written document has exactly the members that describe the filter)
+{
+    assert(forall|k: u8| !keys_head().contains(k) ==> s1.fget(k) == s0.fget(k));
+    assert(forall|k: u8| !keys_ids().contains(k) ==> s2.fget(k) == s1.fget(k));
+    assert(forall|k: u8| !keys_payload().contains(k) ==> s3.fget(k) == s2.fget(k));
+}
+// ASSUMED about the regex crates and String: whether a compiled matcher accepts a text is a function of the pattern it was compiled
+// from; substring search is a function of the searched text's characters; a printable id survives Display + from_str
+#[verifier::external_body]
+pub proof fn axiom_fancy_by_pattern(r1: &VxFancyRegex, r2: &VxFancyRegex, t: &VxText)
+    ensures fancy_pat(r1) == fancy_pat(r2) ==> fancy_match(r1, t) == fancy_match(r2, t),
+{}
+#[verifier::external_body]
+pub proof fn axiom_sre_by_literal(s1: &VxStrRegex, s2: &VxStrRegex, t: &VxText)
+    ensures sre_ci_literal(s1) == sre_ci_literal(s2) ==> sre_match(s1, t) == sre_match(s2, t),
+{}
+#[verifier::external_body]
+pub proof fn axiom_contains_by_text(p1: &String, p2: &String, t: &VxText)
+    ensures p1@ == p2@ ==> text_contains(t, p1) == text_contains(t, p2),
+{}
+#[verifier::external_body]
+pub proof fn axiom_char4_text_roundtrip(c: DltChar4)
+    ensures char4_of_str(char4_text(c)) == c,
+{}
+// a type criterion as the front-ends build it: only the message type (mask 0x0e, no other bit in the value), or a type byte with
+// the mask derived from its MTIN nibble
+pub open spec fn type_crit_canonical(vm: (u8, u8)) -> bool {
+    (vm.1 == 0x0eu8 && vm.0 & 0xf1u8 == 0) || (vm.1 != 0x0eu8 && vm.1 == (if (vm.0 >> 4) & 0xfu8 == 0 { 0x0fu8 } else { 0xffu8 }))
+}
+pub proof fn lemma_type_roundtrip(v: u8, mask: u8)
+    requires type_crit_canonical((v, mask)),
+    ensures
+        mask == (0x07u8 << 1) ==> (((((v >> 1) & 0x07u8) as u64) & 0x07) << 1) as u8 == v,
+        mask != (0x07u8 << 1) ==> (((v as u64) & 0xff) as u8 == v && mask == (if ((((v as u64) & 0xff) as u8) >> 4) & 0xfu8 == 0 { 0x0fu8 } else { 0xffu8 })),
+        (0x07u8 << 1) == 0x0eu8,
+{
+    assert((0x07u8 << 1) == 0x0eu8) by(bit_vector);
+    if mask == 0x0eu8 {
+        assert((((((v >> 1) & 0x07u8) as u64) & 0x07) << 1) as u8 == v) by(bit_vector) requires v & 0xf1u8 == 0;
+    } else {
+        assert(((v as u64) & 0xff) as u8 == v) by(bit_vector);
+    }
+}
+pub proof fn lemma_rt_id(c: Char4OrRegex, c2: Option<Char4OrRegex>, d: Doc, j: &VxJson, kname: Seq<char>, fname: Seq<char>, key: u8, flag: u8, id: Seq<u8>)
+    requires doc_id(d, Some(c), key, flag), member_is(j, kname, d, key), member_is(j, fname, d, flag), id_crit_is(c2, j, kname, fname),
+    ensures c2 is Some, id_ok(c2, id) == id_ok(Some(c), id),
+{
+    match c {
+        Char4OrRegex::DltChar4(x) => { axiom_char4_text_roundtrip(x); }
+        Char4OrRegex::Regex(r) => { axiom_bre_match_by_pattern(&r, id); axiom_bre_match_by_pattern(&c2->Some_0->Regex_0, id); }
+    }
+}
+// The round-trip clause: serialise a filter built by a front-end, load the document again: the reloaded filter decides every message
+// like the original.
+pub proof fn theorem_json_roundtrip(f: &Filter, d: Doc, j: &VxJson, f2: &Filter, m: &DltMessage)
+    requires
+        built_ok(f), doc_describes(f, d), doc_type_crit(f, d), json_has(j, d), filter_is_json(f2, j), built_ok(f2),
+        f.verb_mstp_mtin is Some ==> type_crit_canonical(f.verb_mstp_mtin->Some_0),
+    ensures spec_matches(f2, m) == spec_matches(f, m), // O:frontends.json_roundtrip (a filter serialised to JSON and loaded again decides identically)
+{
+    if f.ecu is Some { lemma_rt_id(f.ecu->Some_0, f2.ecu, d, j, "ecu"@, "ecuIsRegex"@, K_ECU, K_ECU_IS_REGEX, m.ecu.char4@); }
+    if f.apid is Some { lemma_rt_id(f.apid->Some_0, f2.apid, d, j, "apid"@, "apidIsRegex"@, K_APID, K_APID_IS_REGEX, if m.extended_header is Some { m.extended_header->Some_0.apid.char4@ } else { Seq::empty() }); }
+    if f.ctid is Some { lemma_rt_id(f.ctid->Some_0, f2.ctid, d, j, "ctid"@, "ctidIsRegex"@, K_CTID, K_CTID_IS_REGEX, if m.extended_header is Some { m.extended_header->Some_0.ctid.char4@ } else { Seq::empty() }); }
+    if spec_payload_text(m) is Ok {
+        let t = &spec_payload_text(m)->Ok_0;
+        if f.payload_regex is Some && f2.payload_regex is Some { axiom_fancy_by_pattern(&f.payload_regex->Some_0, &f2.payload_regex->Some_0, t); }
+        if f.payload_as_regex is Some && f2.payload_as_regex is Some { axiom_sre_by_literal(&f.payload_as_regex->Some_0, &f2.payload_as_regex->Some_0, t); }
+        if f.payload is Some && f2.payload is Some { axiom_contains_by_text(&f.payload->Some_0, &f2.payload->Some_0, t); }
+    }
+    if f.verb_mstp_mtin is Some { lemma_type_roundtrip(f.verb_mstp_mtin->Some_0.0, f.verb_mstp_mtin->Some_0.1); }
+    assert(f2.verb_mstp_mtin == f.verb_mstp_mtin);
+    assert(f2.loglevel_min == f.loglevel_min && f2.loglevel_max == f.loglevel_max);
+    assert(f2.lifecycles is Some <==> f.lifecycles is Some);
 }
 // ---- end of units/filterjson/part.rs ----
